@@ -77,6 +77,7 @@ Print Assumptions C02_packed_score_site_shift.
    chord length that vanishes at the rim; circle_overlap is the sum of the two segments cut by the common chord ---- *)
 From Coquelicot Require Import Coquelicot.
 From PV Require Import proofs.LensFacts proofs.LensModel.
+From PV Require Import gen.GenFns proofs.SourceFacts.
 Local Open Scope R_scope.
 
 Theorem C02_segment_integral :
@@ -122,4 +123,27 @@ Theorem C02_copies_total_shapes :
   forall st : pstateR, total_shapes NumR st = Z.of_nat (copies st).
 Proof. exact copies_total_shapes. Qed.
 Print Assumptions C02_copies_total_shapes.
+
+
+Theorem C02_cell_area_is_source :
+  forall (NN : Num) (c : cell NN), gen_cell_area NN c = cell_area NN c.
+Proof. exact cell_area_is_source. Qed.
+Print Assumptions C02_cell_area_is_source.
+
+Theorem C02_overlap_area_is_source :
+  forall (NN : Num) (facos : carrier NN -> carrier NN) (r d : carrier NN), gen_overlap_area NN
+    facos r d = overlap_area NN facos r d.
+Proof. exact overlap_area_is_source. Qed.
+Print Assumptions C02_overlap_area_is_source.
+
+Theorem C02_circle_overlap_is_source :
+  forall (NN : Num) (facos : carrier NN -> carrier NN) (a b : disc NN), gen_circle_overlap NN
+    facos a b = circle_overlap NN facos a b.
+Proof. exact circle_overlap_is_source. Qed.
+Print Assumptions C02_circle_overlap_is_source.
+
+Theorem C02_packed_score_is_source :
+  forall (NN : Num) (st : pstate NN), gen_packed_score NN st = packed_score NN st.
+Proof. exact packed_score_is_source. Qed.
+Print Assumptions C02_packed_score_is_source.
 
